@@ -442,7 +442,15 @@ func panicKind(val string) string {
 // the vaxis module, in short form (pkg.(*T).method), or "?".
 func InnermostVaxisFrame(stack string) string {
 	lines := strings.Split(stack, "\n")
-	for i := 0; i+1 < len(lines); i++ {
+	// a recovered-and-repanicked panic lists the re-panicking deferred
+	// function first; the original site follows the last panic frame
+	start := 0
+	for i, l := range lines {
+		if strings.HasPrefix(l, "panic(") || strings.HasPrefix(l, "runtime.goPanic") || strings.HasPrefix(l, "runtime.panic") || strings.HasPrefix(l, "runtime.sigpanic") {
+			start = i
+		}
+	}
+	for i := start; i+1 < len(lines); i++ {
 		l := lines[i]
 		if strings.HasPrefix(l, "\t") || !strings.Contains(l, "(") {
 			continue
